@@ -488,6 +488,14 @@ impl G<'_> {
     }
 }
 
+/// One generated update statement as text and parameters (C34 runs these through the C API).
+pub fn gen_update_statement(rng: &mut Rng, g: &Graph, next_uid: &mut i64) -> (String, String, BTreeMap<String, Value>) {
+    let mut gen_ = G { rng, g, next_uid, pcount: 0, may_read: true };
+    let (fam, stmt) = gen_.statement();
+    let params = stmt_params(&stmt).iter().map(|(k, v)| (k.clone(), v_to_value(v))).collect();
+    (fam, render_stmt(&stmt), params)
+}
+
 // ---------------------------------------------------------------------------------------------
 // monitor
 // ---------------------------------------------------------------------------------------------
